@@ -207,8 +207,9 @@ def _is_attach_filter(gd: str) -> bool:
         e = ast.parse(gd, mode="eval").body
     except SyntaxError:
         return False
-    while isinstance(e, ast.UnaryOp) and isinstance(e.op, ast.Not):
-        e = e.operand
+    while (isinstance(e, ast.UnaryOp) and isinstance(e.op, ast.Not)) or \
+            (isinstance(e, ast.Call) and norm(e.func) in ("tuple", "list", "bool", "len") and len(e.args) == 1):
+        e = e.operand if isinstance(e, ast.UnaryOp) else e.args[0]
     if isinstance(e, (ast.ListComp, ast.GeneratorExp)) and len(e.generators) == 1:
         g = e.generators[0]
         return norm(g.iter).endswith(".controllers.items()") and len(g.ifs) == 1 and isinstance(g.ifs[0], ast.Call) \
